@@ -3,10 +3,10 @@ package main
 func init() {
 	register(Harness{
 		Prop: "C06", Pkg: "server/smtp", Func: "VerifC06Size",
-		Quick:    [][]int64{{0, 0}, {1, 0}, {3, 1}, {5, 2}, {4, 0}},
-		Thorough: grid(rng(0, 6), rng(0, 2)),
+		Quick:    [][]int64{{0, 0}, {1, 0}, {3, 1}, {5, 2}, {4, 0}, {20, 0}},
+		Thorough: append(grid(rng(0, 6), rng(0, 2)), []int64{20, 0}, []int64{20, 1}),
 		Desc:     "EHLO, MAIL [SIZE=<nd digits>], RCPT, DATA, body of symbolic length, MAIL again: refusal iff over MaxMessageBytes, nothing delivered when refused, session usable afterwards",
-		Bounds:   "params (nd = number of digits of the declared SIZE, 0 = none; spelling of the SIZE keyword); symbolic: an extension that allows the sender or stays silent, symbolic limit in [1,60000], body length in [0,70000] (content never inspected), declared size digits",
+		Bounds:   "params (nd = number of digits of the declared SIZE, 0 = none, 20 = a menu of six concrete sizes of 2^32 .. 10^20-1; spelling of the SIZE keyword); symbolic: an extension that allows the sender or stays silent, symbolic limit in [1,60000], body length in [0,70000] (content never inspected), declared size digits",
 		Assumes:  []string{"the MAIL parameter regexps are evaluated on a representative of the digit class (patterns contain no digit-specific atoms)"},
 	})
 	register(Harness{
